@@ -128,7 +128,15 @@ def run(ctx):
         fa = I.call(fm, [A[kind]], {})
         eq(ctx, "R2", f"single-atom formula defaults to the atom's density [{kind}]", I.getattr(fa, "density"),
            I.getattr(A[kind], "density"), fsite(ctx, "formulas.Formula.__init__"))
-    ctx.floor("R2", 20)
+    # several atoms in one counted group have no default density; one atom written as several groups has its own
+    Fe_, O_ = A["element"], A["element2"]
+    grp = I.call(fm, [[(sp.Integer(2), [(sp.Integer(2), Fe_), (sp.Integer(1), O_)])]], {})
+    ctx.check(I.getattr(grp, "density") is None, "R2", "one counted group of several atoms has no default density",
+              f"density = {_s(I.getattr(grp, 'density'))}", fsite(ctx, "formulas.Formula.__init__"))
+    twice = I.call(fm, [[(sp.Integer(1), Fe_), (sp.Integer(2), Fe_)]], {})
+    eq(ctx, "R2", "a single atom written as several groups keeps that atom's density", I.getattr(twice, "density"), I.getattr(Fe_, "density"),
+       fsite(ctx, "formulas.Formula.__init__"))
+    ctx.floor("R2", 22)
 
     # ---- R3 isotope substitution ---------------------------------------------
     s_sub = fsite(ctx, "formulas._isotope_substitution")
